@@ -53,7 +53,7 @@ def write_ninja(variant):
     out.append("builddir = %s" % b)
     out.append("rule cxx\n  command = %s %s $inc -MMD -MF $out.d -c $in -o $out\n  depfile = $out.d\n  deps = gcc\n  description = CXX $out" % (cxx, common))
     out.append("rule mc\n  command = python3 %s/tools/matchcompiler.py --read-dir=%s/lib --write-dir=%s/mc --prefix=mc_ --line $file\n  description = MC $file" % (REPO, REPO, b))
-    out.append("rule link\n  command = %s %s -o $out $in -lpthread\n  description = LINK $out" % (cxx, " ".join(LINKFLAGS[variant])))
+    out.append("rule link\n  command = %s %s -o $out.tmp $in -lpthread && mv -f $out.tmp $out\n  description = LINK $out" % (cxx, " ".join(LINKFLAGS[variant])))
     objs_lib, objs_cli = [], []
     for src in sorted(glob.glob(os.path.join(REPO, "lib", "*.cpp"))):
         base = os.path.basename(src)
